@@ -218,18 +218,18 @@ def replay_branching(hist):
     from kaira.models.generic import BranchingModel
     m = BranchingModel()
     ran = []
-    for idx, (op, n, c, raised, sel) in enumerate(hist):
+    for idx, (op, n, c, raised, sel, x) in enumerate(hist):
         got_raised, got_sel = False, ""
         try:
             if op == "add":
-                m.add_branch(n, condition=(lambda x, c=c: torch.tensor(c) if idx % 2 else c), model=(lambda x, n=n: ran.append(n) or n))
+                m.add_branch(n, condition=(lambda x, c=tuple(c), t=idx % 2: torch.tensor(x in c) if t else (x in c)), model=(lambda x, n=n: ran.append(n) or n))
             elif op == "remove":
                 m.remove_branch(n)
             elif op == "default":
                 m.set_default_branch(lambda x: ran.append("default") or "default")
             else:
                 del ran[:]
-                out = m("x", return_branch=True)
+                out = m(x, return_branch=True)
                 got_sel = out[1] if isinstance(out, tuple) else "?"
                 if ran != [got_sel] or out[0] != got_sel:
                     return idx, "ran_exactly_the_selected_branch", [sel], list(ran)
@@ -591,19 +591,19 @@ def run(run):
 
     # --- (B) branching histories (add / remove / set default / run) exported by TLC ------------------
     bl = 4 if quick else 5
-    rb = tlc.run("MC_Branching", 'CONSTANTS Names = {"a","b","c"}\nMaxLen = %d\nExport = TRUE\nSPECIFICATION Spec\nCHECK_DEADLOCK FALSE\nINVARIANT NoDuplicates\n'
-                 'INVARIANT SelectedIsFirstTrue\nINVARIANT ExportInv\n' % bl, workers=1, timeout=900)
+    rb = tlc.run("MC_Branching", 'CONSTANTS Names = {"a","b","c"}\nInputs = {1, 2}\nMaxLen = %d\nExport = TRUE\nSPECIFICATION Spec\nCHECK_DEADLOCK FALSE\nINVARIANT NoDuplicates\n'
+                 'INVARIANT SelectedIsFirstTrue\nINVARIANT SelectionHasNoMemory\nINVARIANT ExportInv\n' % bl, workers=1, timeout=1800, heap="12g")
     if not rb.ok:
         raise tlc.TLCFailure("MC_Branching: %s %s" % (rb.errors, rb.violated))
     run.add_tlc("MC_Branching MaxLen=%d" % bl, rb)
     bh = [h[1] for h in rb.tuples("BHIST")]
-    if len(bh) != 11 ** (bl - 1):
+    if len(bh) != 2 * 18 ** (bl - 1):
         raise tlc.TLCFailure("branching export incomplete: %d" % len(bh))
     badb = False
     for h in bh:
         d = replay_branching(h)
         run.traces += 1
-        run.case(("branching", tuple((x[0], x[1], x[2]) for x in h)), nontrivial=True)
+        run.case(("branching", tuple((x[0], x[1], tuple(x[2]), x[5]) for x in h)), nontrivial=True)
         if d and not badb:
             badb = True
             run.violate("BranchingModel", d[1], {"kind": "Branching"}, {"history": h, "step": d[0], "expected": d[2], "observed": d[3]},
